@@ -355,7 +355,102 @@ def numeric_oracle(args):
     return None
 
 
+class _Impossible(Exception):
+    pass
+
+
+class _Stop:
+    """forces one outcome string through the sampling chain; stops at the first site where that outcome cannot be drawn"""
+
+    def __init__(self, script):
+        self.script, self.k, self.ps = list(script), 0, []
+
+    def choice(self, n, p=None):
+        p = np.asarray(p, dtype=float)
+        self.ps.append(p.copy())
+        c = int(self.script[self.k])
+        self.k += 1
+        if not np.isfinite(p[c]) or p[c] < 1e-14:
+            if not np.all(np.isfinite(p)):
+                raise ValueError("a conditional probability vector handed to choice() is not finite")
+            raise _Impossible
+        return c
+
+
+def weak_numeric_oracle(args):
+    """weak mode on real numerics: the distribution from which the shots of a noise-free run are drawn (every outcome string forced
+    once through the sampling chain of the state that digital_tjm hands to measure_shots) equals |amplitude|^2 of the exact final
+    state, for the circuit as given and with its barriers/measurements removed"""
+    import copy
+    import itertools
+
+    from qiskit.quantum_info import Statevector
+
+    from mqt.yaqs import simulator
+    from mqt.yaqs.core.data_structures.networks import MPS
+    from mqt.yaqs.core.data_structures.simulation_parameters import WeakSimParams
+    n, instrs = args["n"], [tuple(x) for x in args["instrs"]]
+    gates = [x for x in instrs if x[1] in ("G1", "G2")]
+    exact = np.abs(Statevector(build_qiskit(n, gates)).data) ** 2  # bit i of the index = qubit i
+    real_shots = MPS.measure_shots
+    for label, ins in (("the circuit as given", instrs), ("the circuit without barriers/measurements", gates)):
+        seen = []
+
+        def spy(self, shots, *a, _seen=seen, **k):
+            _seen.append(copy.deepcopy(self))
+            return real_shots(self, shots, *a, **k)
+
+        MPS.measure_shots = spy
+        try:
+            p = WeakSimParams(shots=3, show_progress=False, threshold=1e-14)
+            with common.time_limit(30):
+                simulator.run(MPS(n), build_qiskit(n, ins), p, None, parallel=False)
+        except common.HardTimeout:
+            return f"weak mode, {label}: simulator.run did not terminate within 30 s"
+        except Exception as e:  # noqa: BLE001
+            return f"weak mode, {label}: simulator.run raised {type(e).__name__}: {e}"
+        finally:
+            MPS.measure_shots = real_shots
+        if sum(p.results.values()) != 3:
+            return f"weak mode, {label}: counts sum to {sum(p.results.values())} for 3 shots"
+        if len(seen) != 1:
+            return f"weak mode, {label}: measure_shots was called {len(seen)} times in a noise-free run"
+        dist = np.zeros(2**n)
+        for bits in itertools.product([0, 1], repeat=n):
+            sr = _Stop(bits)
+            try:
+                key = seen[0].measure_single_shot("Z", rng=sr)
+            except _Impossible:
+                continue  # this outcome string has conditional probability 0 at some site: it is never drawn
+            except Exception as e:  # noqa: BLE001
+                return f"weak mode, {label}: sampling outcome {bits} from the final state raised {type(e).__name__}: {e}"
+            dist[key] += float(np.prod([q[b] for q, b in zip(sr.ps, bits)]))
+        if not np.all(np.isfinite(dist)) or np.max(np.abs(dist - exact)) > 1e-7:
+            k = int(np.nanargmax(np.abs(dist - exact))) if np.all(np.isfinite(dist)) else 0
+            return (f"weak mode, {label}: the shots are drawn from a distribution that gives outcome {k:0{n}b} (bit i = qubit i) probability "
+                    f"{dist[k]:.6f}; the exact final state gives {exact[k]:.6f}")
+    return None
+
+
 def search(ctx):
+    # weak mode: circuits that end in a two-qubit gate away from the left edge (nothing after it), with and without trailing barriers
+    for k in range(ctx.scale(6, 40)):
+        n, instrs = gen_circuit(ctx.rng, n=int(ctx.rng.integers(3, 5)), m=int(ctx.rng.integers(3, 9)), gateset=("rx", "ry", "h", "cx", "rzz", "rxx"))
+        instrs = list(instrs)
+        if k % 2 == 0:
+            while instrs and instrs[-1][1] != "G2":
+                instrs.pop()
+            q = int(ctx.rng.integers(1, n - 1))
+            if not instrs or k % 4 == 0:
+                instrs += [(len(instrs), "G1", [0], "h", 0.1), (len(instrs) + 1, "G2", [0, 1], "cx", 0.1), (len(instrs) + 2, "G2", [q, q + 1], "rxx", 0.9)]
+        args = {"n": n, "instrs": [list(x) for x in instrs]}
+        why = weak_numeric_oracle(args)
+        ctx.case(nontrivial_key=("weaknum", k))
+        ctx.count("weak_numeric_runs")
+        if instrs and instrs[-1][1] == "G2":
+            ctx.count("weak_numeric_ending_in_two_qubit_gate")
+        if why:
+            ctx.violation("hang:weak-numeric" if "terminate" in why else "weak-numeric", why, {"oracle": "weak-numeric", "args": args})
     for k in range(ctx.scale(8, 80)):
         n, instrs = gen_circuit(ctx.rng, n=int(ctx.rng.integers(2, 5)), m=int(ctx.rng.integers(3, 11)), gateset=("rx", "ry", "h", "cx", "rzz", "rxx"))
         if k == 0:
@@ -386,6 +481,8 @@ def replay(ctx, data):
     rp = data.get("replay", data)
     if rp.get("oracle") == "numeric":
         return numeric_oracle(rp["args"])
+    if rp.get("oracle") == "weak-numeric":
+        return weak_numeric_oracle(rp["args"])
     if rp.get("oracle") == "history":
         got = run_history_trace(rp["qubits"], [[tuple(x) for x in c] for c in rp["circuits"]], rp["ctor_mid"], rp["sampling"])
         want = [(lb + 2 if rp["sampling"] else 1) for lb in rp["labelled"]]
